@@ -185,7 +185,7 @@ def gen_mader(rng, i, tier):
     kw = C.gen_mader(rng, None)
     if i % 3 == 0:
         kw["gamma"] = 3.0
-    return dict(kw=kw, t=logu(rng, 1e-6, 1e-5), n=int(choice(rng, [50, 100, 400, 1000])), off=uni(rng, -0.5, 0.5), exact=(i % 2 == 0))
+    return dict(kw=kw, t=logu(rng, 1e-6, 1e-5) * (1.0 if kw["d_cj"] > 100.0 else 1e6), n=int(choice(rng, [50, 100, 400, 1000])), off=uni(rng, -0.5, 0.5), exact=(i % 2 == 0))
 
 
 def run_mader(ctx, p):
@@ -446,7 +446,7 @@ def run_suite(ctx, p):
 
 UNITS = [
     Unit("catalogue", gen_cat, run_cat, quick=140, thorough=1400, min_nontrivial=60),
-    Unit("riemann.igeos", gen_rm("IGEOS"), run_rm, quick=240, thorough=4800, min_nontrivial=300),
+    Unit("riemann.igeos", gen_rm("IGEOS"), run_rm, quick=640, thorough=4800, min_nontrivial=300),
     Unit("riemann.geneos", gen_rm("GenEOS"), run_rm, quick=12, thorough=160, min_nontrivial=20),
     Unit("mader", gen_mader, run_mader, quick=160, thorough=3200, min_nontrivial=200),
     Unit("piston", gen_pis, run_pis, quick=90, thorough=1800, min_nontrivial=100),
